@@ -172,6 +172,18 @@ pub fn sections() -> Vec<Box<dyn Section>> {
             complete: true,
         }),
         Box::new(Enumerated {
+            name: "short-names-over-length-changing-case-letters".into(),
+            total: Box::new(|t: Tier| 2 * names_total(crate::chars::length_changing_alphabet(), t.pick(3, 4))),
+            make: Box::new(|t: Tier, i| {
+                let a = crate::chars::length_changing_alphabet();
+                let n = names_total(a, t.pick(3, 4));
+                Some(NameCase { ty: ["nuget", "pypi", "npm"][(i / n) as usize].into(), name: name_from_index(a, t.pick(3, 4), i % n) })
+            }),
+            oracle: o_name,
+            required: vec!["rebuilt", "pypi-or-nuget-value"],
+            complete: true,
+        }),
+        Box::new(Enumerated {
             name: "pypi-nuget-names-exhaustive".into(),
             total: Box::new(|t: Tier| 2 * names_total(NAME_ALPHABET, t.pick(5, 7))),
             make: Box::new(|t: Tier, i| {
